@@ -64,22 +64,22 @@ def publication_ok(ino, new):
 def crash_law(crash_at: int, lost: int, nwrites: int, a: bytes, b: bytes, c: bytes, buflimit: int,
               dest_exists: bool, overwrite: bool) -> bool:
     """
-    pre: lost >= 0 and len(a) <= 2 and len(b) <= 2 and len(c) <= 2 and 0 <= nwrites <= 3
+    pre: lost >= 0 and len(a) <= 2 and len(b) <= 2 and len(c) <= 2
     post: _
     """
     text_mode = pinval('text', 0)
-    nwrites = cz(nwrites, 0, pinval('wmax', 3))
+    nwrites = pin('nwrites', nwrites, 0, 4)
     crash_at = cz(crash_at, 0, 20)
-    buflimit = cz(buflimit, 1, 3)
+    buflimit = cz(buflimit, 1, 2)
     dest_exists = True if dest_exists else False
     overwrite = True if overwrite else False
     assume(not (dest_exists and not overwrite))        # refusal is C05's business
     fs = FakeFS(crash_at=crash_at, buflimit=buflimit)
     if dest_exists:
         fs.names[DEST] = Inode(0o640, OLD)
-    chunks = [a, b, c][:nwrites]
+    chunks = [a, b, c, a][:nwrites]
     if text_mode:
-        chunks = [['\xe9', 'ab', '€\n'][i] for i in range(nwrites)]
+        chunks = [['\xe9', 'ab', '€\n', 'z'][i] for i in range(nwrites)]
         new = ''.join(chunks).encode('utf-8')
     else:
         new = b''
@@ -178,8 +178,9 @@ def obligations(tier):
     q = tier == 'quick'
     T = 170 if q else 1500
     kinds = ('completed', 'crash_before_publication', 'crash_after_publication')
-    obs.append(Ob('crash_law', timeout=T, pins={'text': 0, 'wmax': 2 if q else 4, 'part': 0}, need_kinds=kinds))
-    obs.append(Ob('crash_law', timeout=T, pins={'text': 0, 'wmax': 3 if q else 4, 'part': 1}, need_kinds=kinds))
-    obs.append(Ob('crash_law', timeout=T, pins={'text': 1, 'wmax': 3, 'part': 0}, need_kinds=kinds))
+    for nw in range(0, 4 if q else 5):
+        obs.append(Ob('crash_law', timeout=T, pins={'text': 0, 'nwrites': nw, 'part': nw % 2}, need_kinds=kinds))
+    for nw in (1, 3):
+        obs.append(Ob('crash_law', timeout=T, pins={'text': 1, 'nwrites': nw, 'part': 0}, need_kinds=kinds))
     obs.append(Ob('two_savers_law', timeout=T, need_kinds=('completed', 'crash_second')))
     return obs
